@@ -126,7 +126,13 @@ def run(ctx):
                        'decimalfp true division guarded (DESIGN 5.2)']
     model(ctx)
     calccheck.run_programs(ctx, programs(ctx), 'quantize/round', sigfn=sig)
+    # the quantize calls of the repository's own suite (witness-based judgement on big rationals)
+    from checks import bcalccheck
+    bcalccheck.repo_suite(ctx, {'Quantize'})
 
 
 def replay(ctx, rp):
+    if str(rp['replay'].get('kind')).startswith('bcalc'):
+        from checks import bcalccheck
+        return bcalccheck.replay(ctx, rp)
     calccheck.replay(ctx, rp, sig)
